@@ -70,7 +70,16 @@ def steps(rng):
     """step-size lists: constant, independent, and lists over a small palette (values recur: alternating, piecewise constant,
     returning to the first value after a different one) - per-step quantities cached across steps show only on the latter"""
     n = int(rng.integers(1, 7))
-    k = int(rng.integers(0, 5))
+    k = int(rng.integers(0, 7))
+    if k >= 5:
+        # graded lists: every step differs from its predecessor by a small relative amount (geometric / arithmetic refinement towards
+        # a boundary layer, a step-size controller settling down): consecutive values are nearly, but not exactly, equal
+        n = int(rng.integers(3, 13))
+        h0 = float(rng.uniform(0.05, 0.5))
+        q = float(10 ** rng.uniform(-7, -2.5)) * (1 if rng.random() < 0.5 else -1)
+        if k == 5:
+            return [h0 * (1 + q) ** i for i in range(n)]
+        return [h0 * (1 + q * i) for i in range(n)]
     if k == 0:
         return [float(rng.uniform(0.05, 0.5))] * n
     if k == 1:
